@@ -25,6 +25,7 @@ def sh(cmd, cwd, timeout=1800):
 
 def main():
     wt = os.path.abspath(sys.argv[1])
+    extra = os.environ.get("DEMO_FEATURES", "").split()     # e.g. "--features prince" when the README says the demo needs it
     for sd in sys.argv[2:]:
         sd = sd.rstrip("/")
         res = {"seed": sd}
@@ -37,7 +38,7 @@ def main():
         tname = "demo_" + re.sub(r"\W", "_", sd.replace("/tmp/seed", "").strip("/"))
         dst = os.path.join(wt, "tests", tname + ".rs")
         open(dst, "w").write(open(demo).read())
-        rc, out = sh(["cargo", "test", "--offline", "--test", tname, "--", "--include-ignored"], wt)
+        rc, out = sh(["cargo", "test", "--offline"] + extra + ["--test", tname, "--", "--include-ignored"], wt)
         res["demo_without_patch"] = "pass" if rc == 0 else "FAIL"
         rc, out = sh(["git", "apply", patch], wt)
         if rc != 0:
@@ -62,7 +63,7 @@ def main():
         demo_names = set(re.findall(r"fn (\w+)\s*\(", open(demo).read()))
         other = failed - KNOWN - demo_names
         res["suite_with_patch"] = "only baseline failures" if not other else "EXTRA FAILURES: %s" % sorted(other)
-        rc, out = sh(["cargo", "test", "--offline", "--test", tname, "--", "--include-ignored"], wt, timeout=600)
+        rc, out = sh(["cargo", "test", "--offline"] + extra + ["--test", tname, "--", "--include-ignored"], wt, timeout=600)
         res["demo_with_patch"] = "fails" if rc != 0 else "PASSES"
         res["confirmed"] = (res["demo_without_patch"] == "pass" and res["build"] == "ok" and not other and rc != 0)
         sh(["git", "checkout", "--", "."], wt)
